@@ -32,7 +32,23 @@ def scenario(run, e4, sc):
         settings["graceful_timeout"] = 5 * TIMEOUT      # the retired worker may finish its request
     if sc["kind"] == "healthy-idle-keepalive":
         settings["keepalive"] = 6 * TIMEOUT             # a parked keep-alive connection outlives the worker timeout
-    srv = e4.Server("c11", worker_class=wc, workers=2, settings=settings, bind="tcp")
+    app_source = None
+    if sc["kind"] == "hang-at-boot":
+        # the application blocks while it is being loaded - in the one worker that finds the flag file (it removes it: the
+        # replacement loads normally).  That worker has never sent a heartbeat.
+        app_source = e4.APP_SOURCE.replace(
+            "START = time.time()\n",
+            "START = time.time()\n"
+            "try:\n"
+            "    os.rename(os.path.join(os.path.dirname(os.path.abspath(__file__)), 'hang_boot'),\n"
+            "              os.path.join(os.path.dirname(os.path.abspath(__file__)), 'hang_boot.taken.%d' % os.getpid()))\n"
+            "    _hang = True\n"
+            "except OSError:\n"
+            "    _hang = False\n"
+            "if _hang:\n"
+            "    while True:\n"
+            "        time.sleep(3600)\n", 1)
+    srv = e4.Server("c11", worker_class=wc, workers=2, settings=settings, bind="tcp", app_source=app_source)
     lag = e4.LagProbe()
     lag.start()
     stop = threading.Event()
@@ -130,7 +146,21 @@ def scenario(run, e4, sc):
         # ---- hang scenarios ----------------------------------------------------------------------
         plog = []
         pt = threading.Thread(target=probe_loop, args=(e4, srv, stop, plog), daemon=True)
-        if kind in ("block", "block-ignabrt", "busy", "block-then-hup", "block-then-ttou"):
+        if kind == "hang-at-boot":
+            # kill one worker: its replacement hangs while loading the application
+            open(os.path.join(srv.dir, "hang_boot"), "w").close()
+            os.chmod(os.path.join(srv.dir, "hang_boot"), 0o666)
+            os.kill(w0[0], signal.SIGKILL)
+            victim = None
+            t1 = time.monotonic()
+            while time.monotonic() - t1 < 10 and victim is None:
+                for name in os.listdir(srv.dir):
+                    if name.startswith("hang_boot.taken."):
+                        victim = int(name.rsplit(".", 1)[1])
+                time.sleep(0.05)
+            if victim is None:
+                return v, "no worker picked up the boot hang", info
+        elif kind in ("block", "block-ignabrt", "busy", "block-then-hup", "block-then-ttou"):
             path = {"block": "/block/x", "block-ignabrt": "/block/ignabrt", "busy": "/busy/60", "block-then-hup": "/block/x",
                     "block-then-ttou": "/block/x"}[kind]
             ht = threading.Thread(target=lambda: e4.request(srv.addr, path, timeout=30), daemon=True)
@@ -167,7 +197,7 @@ def scenario(run, e4, sc):
         if dead_at is None or dead_at - t_hang > limit_dead:
             if maxlag > 0.5:
                 return v, "late kill but scheduling lag was %.2f s" % maxlag, info
-            v.append(("hung-worker-not-killed-in-time/" + kind,
+            v.append(("hung-worker-not-killed-in-time/" + ("hang-before-first-heartbeat" if kind == "hang-at-boot" else kind),
                       "%s worker %d hung (%s) at t0: %s after %.1f s (limit %.1f s, timeout %d)" % (
                           wc, victim, kind, "still alive" if dead_at is None else "died", time.monotonic() - t_hang if dead_at is None
                           else dead_at - t_hang, limit_dead, TIMEOUT)))
@@ -218,13 +248,19 @@ def plan(run, tier, seed):
              ("gthread", "healthy-long"), ("gevent", "healthy-long"), ("eventlet", "healthy-long"),
              ("sync", "healthy-mixed"), ("sync", "block-then-hup"), ("sync", "block-then-ttou"),
              ("gevent", "healthy-long-retired"), ("gthread", "healthy-long-retired"), ("eventlet", "healthy-long-retired"),
-             ("gthread", "healthy-idle-keepalive"), ("gevent", "healthy-idle-keepalive"), ("eventlet", "healthy-idle-keepalive")]
+             ("gthread", "healthy-idle-keepalive"), ("gevent", "healthy-idle-keepalive"), ("eventlet", "healthy-idle-keepalive"),
+             ("sync", "hang-at-boot"), ("gthread", "hang-at-boot"), ("gevent", "hang-at-boot")]
     if tier == "quick":
         # every hang kind and every healthy pattern once per run, classes rotated by the seed
         rot = ["gevent", "gthread", "eventlet"]
-        pick = [c for i, c in enumerate(cells) if c[1] in ("block", "block-ignabrt", "healthy-mixed", "block-then-hup")
+        boot = ["sync", "gthread", "gevent"][seed % 3]
+        # one hang of every worker class in every run
+        always = {("sync", "block"), ("gthread", "stop"), ("gevent", ["busy", "stop"][seed % 2]), ("eventlet", ["stop", "busy"][seed % 2]),
+                  (boot, "hang-at-boot")}
+        pick = [c for i, c in enumerate(cells) if c in always or (c[1] == "hang-at-boot" and False)
+                or c[1] in ("block", "block-ignabrt", "healthy-mixed", "block-then-hup")
                 or (c[1] in ("healthy-long-retired", "healthy-idle-keepalive") and c[0] in (rot[seed % 3], rot[(seed + 1) % 3]))
-                or (c[1] not in ("healthy-long-retired", "healthy-idle-keepalive") and (i + seed) % 2 == 0)]
+                or (c[1] not in ("healthy-long-retired", "healthy-idle-keepalive", "hang-at-boot") and (i + seed) % 2 == 0)]
         cells = pick
     return [{"kind": "live", "scenario": {"class": c, "kind": k, "idx": i, "seed": seed}, "seed": seed, "tier": tier}
             for i, (c, k) in enumerate(cells)]
